@@ -167,7 +167,7 @@ class Exec:
     """Outcome of executing one op on the subject file."""
 
     __slots__ = ("outcome", "killed", "fired", "calls", "callbacks", "syscalls", "sql_log", "sys_log",
-                 "raw_modified", "journal_left", "lock_held")
+                 "raw_modified", "journal_left", "lock_held", "peer_outcome", "peer_blocked")
 
     def __init__(self):
         self.outcome = None
@@ -179,6 +179,8 @@ class Exec:
         self.raw_modified = None
         self.journal_left = None
         self.lock_held = None
+        self.peer_outcome = None
+        self.peer_blocked = False
 
 
 SIGNALS = {"KILL": signal.SIGKILL, "TERM": signal.SIGTERM, "INT": signal.SIGINT, "HUP": signal.SIGHUP}
@@ -220,6 +222,15 @@ def execute(db, argv, knobs, fault, directory, record=False, count_sys=False):
         (layer == "C" and fault["kind"].startswith("kill")) or (layer == "A" and fault.get("kind") == "kill"))
     peer = None
     lock_hook = None
+    peer_proc = None
+    if layer == "P":
+        peer_proc = PeerProcess()
+        peer_argv = _subst(fault["peer_argv"], os.path.relpath(db) if knobs.get("_relative_paths") else db)
+
+        def lock_hook(_kind, _sql, index, at=fault["at"]):
+            if index == at and peer_proc.outcome is None and not peer_proc.blocked:
+                peer_proc.run(peer_argv, {"cache_pages": knobs.get("cache_pages")})
+                ex.fired = True
     if layer == "L":
         peer = sqlseam.plain_connect(db)
 
@@ -344,6 +355,10 @@ def execute(db, argv, knobs, fault, directory, record=False, count_sys=False):
                 ex.fired = (peer is not None) if fault.get("acquire_at") is None else ex.fired
     finally:
         sqlseam.set_plan(None)
+        if peer_proc is not None:
+            ex.peer_outcome = peer_proc.outcome
+            ex.peer_blocked = peer_proc.blocked
+            peer_proc.close()
         if peer is not None:
             try:
                 ex.lock_held = None
@@ -438,6 +453,7 @@ class Trial:
         self.deferred = False
         self.last_twin_failed = False
         self.other_process_seed = None
+        self.concurrent_peers = True
 
     # -- helpers ----------------------------------------------------------
     def logline(self, *parts):
@@ -564,11 +580,13 @@ class Trial:
         return ex, post
 
     # -- fault plan ---------------------------------------------------------
-    def draw_fault(self, twin_ex):
+    def draw_fault(self, twin_ex, op=None):
         rng = self.rng
         layers = [l for l in self.layers]
         if not layers:
             return None
+        if self.concurrent_peers and op in STEPS and twin_ex.calls > 0 and rng.random() < 0.04:
+            return self.draw_peer(op, twin_ex, rng)
         layer = rng.choice(layers)
         if layer == "A":
             n = twin_ex.calls
@@ -608,6 +626,17 @@ class Trial:
             plan["acquire_at"] = rng.randrange(1, n)           # a reader arrives mid-step: BUSY at COMMIT
         return plan
 
+    def draw_peer(self, op, twin_ex, rng):
+        """Another spowtd process runs a command on the same file while `op` is
+        between two of its SQL API calls (biased to the first write and to the
+        commit)."""
+        others = [s for s in STEPS if s != op]
+        peer_op = rng.choice(others + ["simulate-rise", op])
+        n = twin_ex.calls
+        at = rng.choice([0, 1, n - 1, n - 1, rng.randrange(n)])
+        return {"layer": "P", "at": max(0, at), "of": n, "peer_op": peer_op,
+                "peer_argv": op_argv(peer_op, self.knobs, self.load_argv)}
+
     # -- one op ---------------------------------------------------------------
     def do_op(self, op, argv, fault="draw", expect=None, defer=None, twin=None):
         """Execute one op with invariants.  fault: "draw", None or a plan dict."""
@@ -631,7 +660,7 @@ class Trial:
         t_out = twin_ex.outcome
         self.last_twin_failed = not t_out.ok
         if fault == "draw":
-            fault = self.draw_fault(twin_ex) if self.rng.random() < self.fault_rate else None
+            fault = self.draw_fault(twin_ex, op) if self.rng.random() < self.fault_rate else None
         pre_raw = None
         if fault and fault["layer"] in ("A", "C") and str(fault.get("kind", "")).startswith("kill"):
             with open(self.db, "rb") as f:
@@ -681,6 +710,8 @@ class Trial:
             self.acked.clear()
             self.ack_count.clear()
             return ex, None
+        if fault and fault.get("layer") == "P":
+            return self._after_concurrent_peer(op, step, argv, fault, ex, after, detail)
         # I1: all-or-nothing
         if after.integrity != "ok" or after.error:
             raise Violation("I1-integrity", dict(detail, error=after.error))
@@ -738,6 +769,44 @@ class Trial:
         if step is not None and (ex.fired or ex.killed) and not completed and after == pre:
             retry = {"ok": t_out.ok, "post": post.digest}
         return ex, retry
+
+    def _after_concurrent_peer(self, op, step, argv, fault, ex, after, detail):
+        """Two processes worked on the file at once (the step under simulation and
+        a peer command started at one of its SQL API calls).  SQLite's locking
+        must serialise them or refuse one; whatever happened, the file must be
+        sound and must hold exactly the results of the commands that reported
+        success (independent steps commute, so that state is the canonical one)."""
+        st = self.stats
+        peer_op = fault["peer_op"]
+        peer_step = step_of(peer_op)
+        p_out = ex.peer_outcome
+        detail = dict(detail, peer_op=peer_op, peer=p_out, peer_blocked=ex.peer_blocked)
+        st["concurrent_peer_ops"] += 1
+        if ex.peer_blocked:
+            st["concurrent_peer_blocked"] += 1
+        if after.integrity != "ok" or after.error:
+            raise Violation("I1-integrity-after-concurrent-commands", dict(detail, error=after.error))
+        completed = []
+        if step is not None and ex.outcome is not None and ex.outcome.ok:
+            completed.append((step, argv))
+        if peer_step is not None and p_out is not None and p_out.get("status") == 0:
+            completed.append((peer_step, fault["peer_argv"]))
+            st["concurrent_peer_completed_its_step"] += 1
+        if len(completed) == 2:
+            st["concurrent_both_commands_succeeded"] += 1
+        for cstep, cargv in completed:
+            self._check_marker(cstep, cargv, self.view, detail, "subject")
+            self.acked[cstep] = cargv
+            self.ack_count[cstep] += 1
+            st["steps_completed"] += 1
+        if self.acked:
+            present = dump_mod.markers(self.view)
+            for s_ in self.acked:
+                if present.get(s_) is None:
+                    raise Violation("I2-marker-of-acknowledged-step-disappeared", dict(detail, step=s_))
+        self._check_canonical(detail)
+        self.states_seen.add(self.state_key())
+        return ex, None
 
     def _check_repeated_completion(self, step, argv, after, detail):
         """A step that completes although it had completed before (a changed tree
@@ -813,7 +882,7 @@ class Trial:
             st["ops_fault_free"] += 1
         else:
             layer = fault["layer"]
-            kind = fault.get("kind") or fault.get("lock") or "interrupt"
+            kind = fault.get("kind") or fault.get("lock") or ("concurrent_" + fault["peer_op"] if layer == "P" else "interrupt")
             if layer == "L" and fault.get("release_at") is not None:
                 kind += "_released_midstep"
             if layer == "L" and fault.get("acquire_at") is not None:
@@ -1035,6 +1104,72 @@ class Trial:
         }
 
 
+class PeerProcess:
+    """Another spowtd process working on the same dataset file at the same time:
+    a fresh interpreter (never a fork: SQLite's per-process lock bookkeeping must
+    not be inherited) started before the step, which runs one command when told
+    to -- at a chosen SQL API call of the step under simulation -- and reports
+    its outcome.  The two processes really contend for SQLite's file locks."""
+
+    def __init__(self):
+        import subprocess  # pylint: disable=import-outside-toplevel
+        envv = dict(os.environ)
+        envv["VCHECK_REEXEC"] = "1"
+        self.proc = subprocess.Popen([sys.executable, os.path.join(env.VERIF_ROOT, "bin", "vcheck"), "_peer"],
+                                     stdin=subprocess.PIPE, stdout=subprocess.PIPE, stderr=subprocess.DEVNULL,
+                                     env=envv, text=True)
+        self.outcome = None
+        self.blocked = False
+        ready = self._read(120)
+        if ready != "READY":
+            self.close()
+            raise runner.HarnessError("peer process did not start: %r" % (ready,))
+
+    def _read(self, timeout):
+        import select  # pylint: disable=import-outside-toplevel
+        r, _, _ = select.select([self.proc.stdout], [], [], timeout)
+        if not r:
+            return None
+        return self.proc.stdout.readline().strip()
+
+    def run(self, argv, knobs):
+        self.proc.stdin.write(json.dumps({"argv": argv, "knobs": knobs}) + "\n")
+        self.proc.stdin.flush()
+        line = self._read(120)
+        if line is None:
+            self.blocked = True           # the peer waits for us: leave it, it is killed on close
+            return None
+        self.outcome = json.loads(line)
+        return self.outcome
+
+    def close(self):
+        try:
+            self.proc.stdin.close()
+        except Exception:  # pylint: disable=broad-except
+            pass
+        try:
+            self.proc.wait(timeout=5)
+        except Exception:  # pylint: disable=broad-except
+            self.proc.kill()
+            self.proc.wait()
+
+
+def peer_loop():
+    """Entry point of the peer interpreter (vcheck _peer)."""
+    cli._main()  # pylint: disable=protected-access
+    if sysfault.available():
+        sysfault.virtual_sleep(True)
+    sys.stdout.write("READY\n")
+    sys.stdout.flush()
+    for line in sys.stdin:
+        req = json.loads(line)
+        sqlseam.set_plan(sqlseam.Plan(cache_pages=req["knobs"].get("cache_pages"), b_every=None))
+        out = cli.run(req["argv"])
+        sys.stdout.write(json.dumps(out.as_dict()) + "\n")
+        sys.stdout.flush()
+    return 0
+
+
 def canon_in_this_process(request_path):
     """Entry point of the fresh interpreter started by check_other_process."""
     with open(request_path, encoding="utf-8") as f:
@@ -1183,8 +1318,19 @@ def sweep(seed, directory, step, prefix_steps, spec=None, knobs=None, layers=("A
         if twin_ex.calls > 2:
             for k in (1, twin_ex.calls // 2, twin_ex.calls - 1):
                 plans.append({"layer": "L", "lock": "shared", "acquire_at": k})
+    if "P" in layers and twin_ex.calls > 0 and step in STEPS:
+        n_calls = twin_ex.calls
+        peers = [s_ for s_ in STEPS if s_ != step]
+        if max_positions:
+            peers = rng.sample(peers, 2)
+        for peer_op in peers:
+            for k in sorted({1, n_calls - 1} if max_positions else {0, 1, n_calls // 2, n_calls - 1}):
+                plans.append({"layer": "P", "at": k, "of": n_calls, "peer_op": peer_op,
+                              "peer_argv": op_argv(peer_op, trial.knobs, trial.load_argv)})
     if max_positions and len(plans) > max_positions:
-        plans = rng.sample(plans, max_positions)
+        keep = [p_ for p_ in plans if p_["layer"] == "P"]
+        rest = [p_ for p_ in plans if p_["layer"] != "P"]
+        plans = keep + rng.sample(rest, max(0, max_positions - len(keep)))
     if shard:
         plans = plans[shard[0]::shard[1]]
     stats["sweep_cases"] += 1 if (not shard or shard[0] == 0) else 0
@@ -1265,7 +1411,7 @@ def sweep_job(job):
 def _sweep_job(job):
     with runner.RunDir() as directory:
         stats, distinct, violations, sample = sweep(
-            job["seed"], directory, job["step"], job["prefix"], layers=job.get("layers", ("A", "C", "B", "L")),
+            job["seed"], directory, job["step"], job["prefix"], layers=job.get("layers", ("A", "C", "B", "L", "P")),
             knobs=None, field=job.get("field"), max_positions=job.get("max_positions"),
             spec=job.get("spec"), hot=bool(job.get("hot")), size=job.get("size"), shard=job.get("shard"))
     stats = collections.Counter(stats)
